@@ -50,11 +50,12 @@ SYMS = {
     "500": ("status", "request"),     # keep-alive 500 (forcelisted when status_forcelist={500})
     "503ra": ("status", "request"),   # 503 + Retry-After: 7, Connection: close
     "429d": ("status", "request"),    # keep-alive 429 + Retry-After: <HTTP date 9 s ahead>
+    "413p": ("status", "request"),    # keep-alive 413 + Retry-After: <HTTP date 9 s in the PAST> (wait = 0, never negative)
     "418ra": ("status", "request"),   # 418 + Retry-After: 7 (never a licence to retry), Connection: close
 }
 RA_SECONDS = 7
 RA_DATE_AHEAD = 9
-STATUS_OF = {"500": 500, "503ra": 503, "429d": 429, "418ra": 418}
+STATUS_OF = {"500": 500, "503ra": 503, "429d": 429, "413p": 413, "418ra": 418}
 FAULT_NAME = {"bto": "recv-body-timeout", "rto": "recv-timeout", "rst": "recv-reset", "unr": "recv-unreachable", "eof": "recv-eof", "bad": "recv-garbage",
               "oth": "recv-tls-error", "tls": "handshake-error", "cref": "connect-refused",
               "cto": "connect-timeout"}
@@ -184,6 +185,9 @@ class ScriptServer(Server):
         if s == "429d":
             rec["retry_after"] = float(RA_DATE_AHEAD)
             return [response(429, body, headers=[("Retry-After", _http_date(self.net.now + RA_DATE_AHEAD))])]
+        if s == "413p":
+            rec["retry_after"] = 0.0  # the advertised instant has passed: nothing to wait for
+            return [response(413, body, headers=[("Retry-After", _http_date(self.net.now - RA_DATE_AHEAD))])]
         if s == "418ra":
             rec["retry_after"] = float(RA_SECONDS)
             return [response(418, body, headers=[("Retry-After", str(RA_SECONDS))], framing="close"), EOF]
@@ -495,7 +499,7 @@ def judge(case, obs):
         ra = prev.get("retry_after") if prev else None
         ra_ok = bool(prev) and prev["cat"] == "status" and prev["status"] in RETRY_AFTER_STATUSES \
             and ra is not None and eff["respect"]
-        if ra is not None and s == ra:
+        if ra is not None and ra > 0 and s == ra:
             # the harness keeps 7 and 9 out of reach of every backoff configuration it uses,
             # so a sleep of exactly the advertised value IS a Retry-After sleep
             if not ra_ok:
@@ -643,7 +647,7 @@ def _missing(need_all, need_any, cats_present):
     return m
 
 
-SYM_STATUS_HAS_RA = {"500": False, "503ra": True, "429d": True, "418ra": True}
+SYM_STATUS_HAS_RA = {"500": False, "503ra": True, "429d": True, "413p": True, "418ra": True}
 
 
 def oracle_forbids_continuation(eff, method, script):
@@ -767,10 +771,10 @@ def _count(acc, task, case, V, outcome, info):
 
 
 # ------------------------------------------------------------------ the enumerated space
-FULL = ["cref", "cto", "rto", "rst", "unr", "eof", "bad", "bto", "oth", "tls", "500", "503ra", "429d", "418ra"]
+FULL = ["cref", "cto", "rto", "rst", "unr", "eof", "bad", "bto", "oth", "tls", "500", "503ra", "429d", "413p", "418ra"]
 CORE = ["cref", "rto", "rst", "500", "oth"]          # one symbol per category (+ both read kinds that are
 #                                                       classified by different code paths)
-SLEEPY = ["cref", "rst", "500", "503ra", "429d", "418ra"]
+SLEEPY = ["cref", "rst", "500", "503ra", "429d", "413p", "418ra"]
 XALPHA = ["cref", "rto", "rst", "unr", "eof", "bto", "oth", "tls", "500", "503ra", "429d"]
 TOTALS = (False, 0, 1, 2, None)
 BUDGET = (None, 0, 1)
